@@ -167,23 +167,46 @@ func (r vRead) run(c *Client, limit int32, start vItem) (items []vItem, count in
 
 var vRangeOps = []string{"", "=", "<", "<=", ">", ">=", "between", "begins_with"}
 
-// vNewRead draws a request shape (forked) with symbolic operand values.
+// vNewRead draws a request shape (forked) with symbolic operand values. With parameter shapes=1 the
+// full product index x (scan | 8 sort-key conditions x 2 directions) x 3 filters is explored; with
+// shapes=0 a list of 13 representative combinations (each on the base table and on the index).
 func vNewRead(cap int) vRead {
 	r := vRead{forward: true}
 	r.index = nd.Choice("rd.index", 2) == 1
-	r.scan = nd.Choice("rd.scan", 2) == 1
+	filter := 0
+	if nd.Param("shapes", 0) == 1 {
+		r.scan = nd.Choice("rd.scan", 2) == 1
+		if !r.scan {
+			r.rangeOp = vRangeOps[nd.Choice("rd.rangeop", len(vRangeOps))]
+			r.forward = nd.Choice("rd.forward", 2) == 1
+		}
+		filter = nd.Choice("rd.filter", 3)
+	} else {
+		type shape struct {
+			scan    bool
+			op      string
+			forward bool
+			filter  int
+		}
+		shapes := []shape{
+			{true, "", true, 0}, {true, "", true, 1}, {true, "", true, 2},
+			{false, "", true, 0}, {false, "", false, 1},
+			{false, "=", true, 0}, {false, "<", true, 0}, {false, "<=", true, 0}, {false, ">", true, 0}, {false, ">=", true, 0},
+			{false, "between", false, 0}, {false, "begins_with", true, 0}, {false, "<", false, 2},
+		}
+		sh := shapes[nd.Choice("rd.shape", len(shapes))]
+		r.scan, r.rangeOp, r.forward, filter = sh.scan, sh.op, sh.forward, sh.filter
+	}
 	if !r.scan {
 		r.hashVal = nd.StringN("rd.hv", 1)
-		r.rangeOp = vRangeOps[nd.Choice("rd.rangeop", len(vRangeOps))]
 		if r.rangeOp != "" {
 			r.r1 = vKeyStr("rd.r1", cap)
 		}
 		if r.rangeOp == "between" {
 			r.r2 = vKeyStr("rd.r2", cap)
 		}
-		r.forward = nd.Choice("rd.forward", 2) == 1
 	}
-	switch nd.Choice("rd.filter", 3) {
+	switch filter {
 	case 1:
 		r.filter, r.fv = "=", nd.StringN("rd.fv", 1)
 	case 2:
@@ -194,6 +217,7 @@ func vNewRead(cap int) vRead {
 
 // vC02Table: client with table (p, s) and GSI idx (g, h), filled with n symbolic items through PutItem.
 func vC02Table(n, cap int) (*Client, *vModel) {
+	sparse := nd.Param("sparse", 1) == 1 // items may lack the index key / the filter attribute
 	c := vClient(true)
 	nd.Assert(AddIndex(vCtx, c, vTbl, vIdx, "g", "h") == nil, "setup-addindex")
 	m := &vModel{withRange: true}
@@ -201,11 +225,11 @@ func vC02Table(n, cap int) (*Client, *vModel) {
 		nm := "k" + string(rune('0'+i))
 		k := vKey{p: nd.StringN(nm+".p", 1), s: vKeyStr(nm+".s", cap)}
 		attrs := map[string]string{}
-		if nd.Choice(nm+".indexed", 2) == 1 {
+		if !sparse || nd.Choice(nm+".indexed", 2) == 1 {
 			attrs["g"] = nd.StringN(nm+".g", 1)
 			attrs["h"] = vKeyStr(nm+".h", cap)
 		}
-		if nd.Choice(nm+".hasf", 2) == 1 {
+		if !sparse || nd.Choice(nm+".hasf", 2) == 1 {
 			attrs["f"] = nd.StringN(nm+".f", 1)
 		}
 		nd.Assert(vPut(c, m.full(k, attrs)) == nil, "setup-put")
